@@ -279,7 +279,7 @@ def run(rep) -> None:
         docs["typing-named"] = typing_named_document()
         docs["nonfinite-defaults"] = nonfinite_defaults_document()
         for name, rdoc in c12.rich_documents().items():
-            if name in ("rich", "baseline_openapi_3.0.json") or not quick:
+            if name in ("rich", "zoo", "zoo-warn", "baseline_openapi_3.0.json") or not quick:
                 docs["doc:" + name] = rdoc
         # pipeline / ops universes: every removal pattern (stratified), accepted documents only
         cases = pipe.run_universe(rep, 3, d, kinds_t=pipe.KINDS_T + pipe.KINDS_T_UNION) if not quick else pipe.run_universe(rep, 3, d)
